@@ -7,6 +7,7 @@ from typing import Any, Dict, List, Tuple
 from pacti import iocontract
 from pacti.contracts import PolyhedralIoContract, PolyhedralIoContractCompound
 from pacti.terms import polyhedra
+from pacti.utils.errors import ContractFormatError
 
 
 def read_contracts_from_file(  # noqa: WPS231 too much cognitive complexity
@@ -20,6 +21,7 @@ def read_contracts_from_file(  # noqa: WPS231 too much cognitive complexity
 
     Raises:
         ValueError: Unsupported contract attempted to be read.
+        ContractFormatError: The file does not hold a list of named, typed contract entries.
 
     Returns:
         A list of contracts with the elements of the file.
@@ -29,10 +31,14 @@ def read_contracts_from_file(  # noqa: WPS231 too much cognitive complexity
     with open(file_name) as f:
         file_data = json.load(f)
     # make sure that data is an array of dictionaries
-    assert isinstance(file_data, list)
+    if not isinstance(file_data, list):
+        raise ContractFormatError(f"The file {file_name} should contain a list of contracts")
     for entry in file_data:
-        assert isinstance(entry, dict)
-        assert "type" in entry
+        if not isinstance(entry, dict):
+            raise ContractFormatError(f"Each entry of the file {file_name} should be a dictionary")
+        for kw in ("type", "name", "data"):
+            if kw not in entry:
+                raise ContractFormatError(f'Keyword "{kw}" not found in an entry of the file {file_name}')
     # we load each contract according to the type
     contracts: List[Any] = []
     names = []
